@@ -43,7 +43,7 @@ def _claimed():
         return set()
 
 
-def _sampler_parts():
+def _sampler_parts(tier_quick=True):
     out = []
     claimed = _claimed()
     for pid in SAMPLED:
@@ -61,7 +61,7 @@ def _sampler_parts():
             if (p["part"], p["cfg"]) in seen:
                 continue
             seen.add((p["part"], p["cfg"]))
-            out.append(dict(part="sampler:%s:%s" % (pid, p["part"]), cfg=p["cfg"], shards=2,
+            out.append(dict(part="sampler:%s:%s" % (pid, p["part"]), cfg=p["cfg"], shards=1 if tier_quick else 2,
                             timeout=p.get("timeout", 1800)))
     return out
 
@@ -71,7 +71,7 @@ def parts(tier):
     ps = [dict(part="sweep", cfg="asan256", shards=8 if q else 12),
           dict(part="fault", cfg="dyn256", shards=8 if q else 14)]
     if os.environ.get("VF_C08_NO_SAMPLER") != "1":
-        ps += _sampler_parts()
+        ps += _sampler_parts(q)
     return ps
 
 
@@ -89,7 +89,7 @@ def run(ctx, part):
         ctx.n = lambda q, t=None: max(1, real_n(q, t) // (4 if ctx.quick else 2))
         ctx.default_budget = 300
         ctx.sampler = True
-        ctx.sample_every = 12 if ctx.quick else 3
+        ctx.sample_every = 16 if ctx.quick else 3
         ctx.sample_phase = (ctx.seed + ctx.shard) % ctx.sample_every
         mod.run(ctx, sub)
         ctx.evaluations = max(ctx.evaluations, ctx.cases)
